@@ -178,6 +178,7 @@ type locInfo struct {
 	lo, hi  int
 	idxs    []*Term
 	backing bool
+	idxSort *Sort
 	ty      types.Type // type at the location
 }
 
@@ -188,7 +189,7 @@ func resolveLoc(p SV) locInfo {
 		info = &PtrInfo{rootKey: typeKey(et), rootTy: et}
 	}
 	ty := info.rootTy
-	li := locInfo{rootKey: info.rootKey, leaves: leavesOf(ty), backing: info.backing}
+	li := locInfo{rootKey: info.rootKey, leaves: leavesOf(ty), backing: info.backing, idxSort: info.idxSort}
 	li.lo, li.hi = 0, len(li.leaves)
 	steps := info.steps
 	if info.backing {
@@ -221,7 +222,11 @@ func resolveLoc(p SV) locInfo {
 func (li locInfo) regionSort(k int) *Sort {
 	s := li.leaves[k].sort
 	if li.backing {
-		s = ArrS(I64, s)
+		if li.idxSort != nil {
+			s = ArrS(li.idxSort, s)
+		} else {
+			s = ArrS(I64, s)
+		}
 	}
 	return ArrS(RefS, s)
 }
